@@ -13,9 +13,12 @@ type TimeoutToxic struct {
 func (t *TimeoutToxic) Pipe(stub *ToxicStub) {
 	timeout := time.Duration(t.Timeout) * time.Millisecond
 	if timeout > 0 {
+		// Arm the timer once: the connection is closed `timeout` after the toxic took
+		// effect, however much data arrives in the meantime.
+		timer := time.After(timeout)
 		for {
 			select {
-			case <-time.After(timeout):
+			case <-timer:
 				stub.Close()
 				return
 			case <-stub.Interrupt:
